@@ -30,6 +30,19 @@ macro_rules! program {
             }
         }
     };
+    // l = lattice only: the code cannot be instantiated at the term-building types (or no solver decides its VCs); the REAL
+    // code is run natively on a stated lattice of its domain - a bounded stand-in, labelled bounded, never counted as proved
+    ($name:ident, $prop:expr, $tier:expr, l, $func:expr, $desc:expr, $body:block) => {
+        pub mod $name {
+            #[allow(unused_imports)] use super::*;
+            pub fn run_f64() { #[allow(dead_code)] type T = f64; $body }
+            pub fn run_f32() { #[allow(dead_code)] type T = f32; $body }
+            pub fn prog() -> $crate::Prog {
+                $crate::Prog { name: stringify!($name), prop: $prop, func: $func, desc: $desc, tier: $tier,
+                    run_s: None, run_v: None, run_f64: Some(run_f64), run_f32: Some(run_f32) }
+            }
+        }
+    };
     ($name:ident, $prop:expr, $tier:expr, v, $func:expr, $desc:expr, $body:block) => {
         pub mod $name {
             #[allow(unused_imports)] use super::*;
@@ -58,6 +71,7 @@ pub mod c17;
 pub mod c19;
 pub mod pairs;
 pub mod edges;
+pub mod lattice;
 
 pub fn all() -> Vec<Prog> {
     let mut v = Vec::new();
@@ -75,5 +89,6 @@ pub fn all() -> Vec<Prog> {
     v.extend(c19::all());
     v.extend(pairs::all());
     v.extend(edges::all());
+    v.extend(lattice::all());
     v
 }
